@@ -45,30 +45,54 @@ func Distinct(v reflect.Value) interface{} {
 		for i := 0; i < items.Len(); i++ {
 			item := jtypes.Resolve(items.Index(i))
 
-			if jtypes.IsMap(item) {
-				// We can't hash a map, so convert it to a
-				// string that is hashable
-				mapItem := fmt.Sprint(item.Interface())
-				if _, ok := visited[mapItem]; ok {
-					continue
-				}
-				visited[mapItem] = struct{}{}
-				distinctValues = reflect.Append(distinctValues, item)
-
+			key := distinctKey(item)
+			if _, ok := visited[key]; ok {
 				continue
 			}
 
-			if _, ok := visited[item.Interface()]; ok {
-				continue
-			}
-
-			visited[item.Interface()] = struct{}{}
+			visited[key] = struct{}{}
 			distinctValues = reflect.Append(distinctValues, item)
 		}
 		return distinctValues.Interface()
 	}
 
+	// Any other value is distinct by definition.
+	if v.IsValid() && v.CanInterface() {
+		return v.Interface()
+	}
+
 	return nil
+}
+
+// A distinctCompositeKey is the map key used by Distinct for
+// values that cannot be used as map keys themselves.
+type distinctCompositeKey struct {
+	json string
+}
+
+// distinctKey returns a hashable value that is equal for two
+// items if and only if the items are equal by value.
+func distinctKey(item reflect.Value) interface{} {
+	if !item.IsValid() || !item.CanInterface() {
+		return nil
+	}
+
+	if n, ok := jtypes.AsNumber(item); ok {
+		return n
+	}
+
+	if jtypes.IsMap(item) || jtypes.IsArray(item) || !item.Type().Comparable() {
+		// We can't hash maps and slices, so convert them to
+		// their JSON representation (which, unlike fmt.Sprint,
+		// distinguishes 1 from "1").
+		s, err := String(item.Interface())
+		if err != nil {
+			s = fmt.Sprint(item.Interface())
+		}
+		return distinctCompositeKey{json: s}
+	}
+
+	return item.Interface()
 }
 
 // Append (golint)
